@@ -181,7 +181,7 @@ CLAIMS["C12"] = dict(
 )
 CLAIMS["C13"] = dict(
     category="other",
-    text="Bounded: the real build_system/_get_model/update/shift/view methods are executed on exact rational-function arrays at fixed "
+    text="Proved: build_system reuses its cached system only for an identical point set and refreshes the cache with a copy. Bounded: the real build_system/_get_model/update/shift/view methods are executed on exact rational-function arrays at fixed "
          "dimensions (n<=4, npt<=15): the system matrix is the scaled KKT matrix of the least-Frobenius-norm problem, _get_model satisfies "
          "its KKT conditions, update adds exactly the least-norm interpolant of the residuals, and value/grad/hess/hess_prod/curv are those "
          "of one quadratic, invariant under shift_x_base. 289 polynomial identities decided by normal form.",
@@ -213,7 +213,9 @@ CLAIMS["C15"] = dict(
 CLAIMS["C16"] = dict(
     category="other",
     text="Mixed. Proved: cauchy_geometry solves the negated problem as second candidate and returns the candidate with the larger |q|, hence "
-         "|q| >= |const| given the callee contract. Bounded: tangential steps do not increase the model, normal steps do not increase the "
+         "|q| >= |const| given the callee contract; the final guards of tangential_byrd_omojokun and constrained_tangential_byrd_omojokun "
+         "(whatever the loops do - they are havocked by frame-only cuts - the returned step is the truncated-CG step or one whose model "
+         "value, evaluated with the statement's expression, is not larger). Bounded: tangential steps do not increase the model, normal steps do not increase the "
          "violation, geometry steps do not decrease |q|, strict increase of the Cauchy geometry step when a feasible improving direction "
          "exists and the box fits in the trust region (found and fixed two genuine defects: _cauchy_geom signs, spider_geometry step sizes).",
     design_ref="5 C16",
